@@ -44,6 +44,8 @@ pub struct Case {
 pub fn text(c: &Case) -> String {
     let body = match c.route.as_str() {
         "assign" => format!("{}\nval {} ::= {}", c.prelude, c.ty, c.value),
+        // the same assignment between neighbours whose notation contains quotes, doubled quotes, braces and comment markers
+        "neighbours" => format!("{}\naa UTF8String ::= \"p\"\"p\"\nab BIT STRING ::= '01'B -- '' \"\" --\nval {} ::= {}\nzy OCTET STRING ::= 'AF'H\nzz UTF8String ::= \"q\"\"q -- {{\"", c.prelude, c.ty, c.value),
         "typeref" => format!("{}\nTy1 ::= {}\nTy2 ::= Ty1\nval Ty2 ::= {}", c.prelude, c.ty, c.value),
         "valref" => format!("{}\nbase {} ::= {}\nval {} ::= base", c.prelude, c.ty, c.value, c.ty),
         "default" => format!("{}\nHolder ::= SEQUENCE {{ f {} DEFAULT {} }}", c.prelude, c.ty, c.value),
@@ -153,7 +155,7 @@ fn eval(e: &syn::Expr, env: &Env) -> Result<Val, String> {
                     let inner = find_value_expr(env.file, &segs[0]).ok_or(format!("unknown constant {}", segs[0]))?;
                     eval(&inner, &Env { file: env.file, depth: env.depth + 1 })
                 }
-                2 => Ok(Val::Enum(segs[1].clone())),
+                2 => Ok(Val::Enum(format!("{}::{}", segs[0], segs[1]))),
                 _ => Err(format!("path {segs:?}")),
             }
         }
@@ -361,7 +363,9 @@ impl Prop for C07 {
         add("null", "NULL", "", "NULL".into(), Val::Null, "null".into());
         // ---- enumerals
         for (name, _) in [("x", 0), ("y", 7), ("z-z", 8)] {
-            add("enumeral", "Enu", "Enu ::= ENUMERATED { x, y(7), z-z }", name.to_string(), Val::Enum(name.replace('-', "_")), "enumeral".into());
+            add("enumeral", "Enu", "Enu ::= ENUMERATED { x, y(7), z-z }", name.to_string(), Val::Enum(format!("Enu::{}", name.replace('-', "_"))), "enumeral".into());
+            // other ENUMERATED types with items of the same names, sorting before and after the governing type
+            add("enumeral", "Enu", "Aaa ::= ENUMERATED { z-z, y, x }\nEnu ::= ENUMERATED { x, y(7), z-z }\nZzz ::= ENUMERATED { y(1), x(2), z-z(3) }", name.to_string(), Val::Enum(format!("Enu::{}", name.replace('-', "_"))), "enumeral-shared-names".into());
         }
         // ---- character strings
         let types: Vec<(&str, Vec<&str>)> = vec![
@@ -502,7 +506,7 @@ impl Prop for C07 {
         for c in &base {
             out.push(c.clone());
             let heavy = c.notation.starts_with("bstring") || c.notation.starts_with("hstring") || c.notation.starts_with("cstring") || c.notation == "oid" || c.notation == "int";
-            for r in ["typeref", "valref", "default", "default-valref"] {
+            for r in ["typeref", "valref", "default", "default-valref", "neighbours"] {
                 // every route for every notation; for the big literal families the non-direct routes use a slice in quick
                 if false && heavy && !tier.thorough() {
                     continue;
